@@ -227,7 +227,8 @@ def run(check):
                   "YAML shapes (scalars, empty, null, lists, maps, nested, number-like, anchors/aliases, merge keys, non-scalar keys, every engine tag on every node kind "
                   "with malformed expressions, unknown and core-schema tags) and removed (quick: 6 shapes per key); (2) sub-workflow trees: self/mutual recursion, nesting "
                   "depth 3, wide trees (nested and plain siblings, shared leaves; repeated), sub-directories, missing/empty files, directory instead of file, odd `kind`/`workflow` values; (3) %d input documents decoded and run; "
-                  "(4) seeded byte-level mutations; all through engine.New().Parse (+Run) from files on disk in child processes; oracle: child must not panic, overflow its "
+                  "(4) seeded byte-level mutations; (5) input / output schema sections that are well-formed but unusable (references into step namespaces, dangling "
+                  "references, defaults that are not JSON, id mismatches), prepared and run; all through engine.New().Parse (+Run) from files on disk in child processes; oracle: child must not panic, overflow its "
                   "stack or stall (watchdog), expected found/missing verdicts for the sub-workflow trees; distinct = (corruption class, outcome)") % (len(SHAPES), len(INPUT_DOCS))
     check.assumptions = ["coverage-guided native fuzzing is not part of the deciding list (not seed-deterministic)"]
     cases_meta = []
@@ -239,6 +240,33 @@ def run(check):
     _n, prog = seeds(check)[0]
     for doc in INPUT_DOCS:
         cases_meta.append({"files": prog.files(), "what": "input document %r" % doc, "class": "input:" + doc[:20], "engine": {"input_yaml": doc}, "run": True})
+    # input and output schema sections that are well-formed YAML but unusable as schemas; each is parsed, prepared and - if it
+    # was accepted - run with a small input document (decoding the input reads the defaults and links the references)
+    STEPS = '  w: {plugin: {src: leaf_w, deployment_type: scripted}, input: {tag: !expr "$.input.tag"}}\n'
+    def wf(inp, tail=""):
+        return "version: v0.2.0\ninput: %s\nsteps:\n%soutputs:\n  success: {t: !expr \"$.steps.w.outputs.success.tag\"}\n%s" % (inp, STEPS, tail)
+    def root(props, rid="RootObject", extra=""):
+        return "{root: RootObject, objects: {RootObject: {id: %s, properties: {tag: {type: {type_id: string}}%s}}%s}}" % (rid, props, extra)
+    GOODIN = root("")
+    schema_cases = {
+        "input:ref-into-namespace-missing-object": wf(root(', w: {required: false, type: {type_id: ref, id: Nope, namespace: "$.steps.w.starting.inputs.input"}}')),
+        "input:ref-into-missing-namespace": wf(root(', w: {required: false, type: {type_id: ref, id: WorkInput, namespace: "$.steps.nosuch.starting.inputs.input"}}')),
+        "input:ref-into-namespace-ok": wf(root(', w: {required: false, type: {type_id: ref, id: WorkInput, namespace: "$.steps.w.starting.inputs.input"}}')),
+        "input:ref-missing-object": wf(root(", w: {required: false, type: {type_id: ref, id: Nope}}")),
+        "input:default-not-json": wf(root(', n: {required: false, default: "{", type: {type_id: integer}}')),
+        "input:default-unquoted-string": wf(root(", s: {required: false, default: plain, type: {type_id: string}}")),
+        "input:default-wrong-type": wf(root(", n: {required: false, default: '\"text\"', type: {type_id: integer}}")),
+        "input:default-in-nested-object": wf(root(", o: {required: false, type: {type_id: ref, id: Sub}}", extra=", Sub: {id: Sub, properties: {k: {required: false, default: \"[\", type: {type_id: integer}}}}")),
+        "input:root-id-mismatch": wf(root("", rid="Other")),
+        "input:object-id-mismatch": wf(root(", o: {required: false, type: {type_id: ref, id: Sub}}", extra=", Sub: {id: NotSub, properties: {k: {type: {type_id: integer}}}}")),
+        "outputSchema:root-id-mismatch": wf(GOODIN, "outputSchema:\n  success:\n    schema: {root: R, objects: {R: {id: Other, properties: {t: {type: {type_id: string}}}}}}\n"),
+        "outputSchema:root-missing": wf(GOODIN, "outputSchema:\n  success:\n    schema: {root: R, objects: {S: {id: S, properties: {t: {type: {type_id: string}}}}}}\n"),
+        "outputSchema:dangling-ref": wf(GOODIN, "outputSchema:\n  success:\n    schema: {root: R, objects: {R: {id: R, properties: {t: {type: {type_id: ref, id: Nope}}}}}}\n"),
+        "outputSchema:default-not-json": wf(GOODIN, "outputSchema:\n  success:\n    schema: {root: R, objects: {R: {id: R, properties: {t: {type: {type_id: string}}, d: {required: false, default: \"{\", type: {type_id: integer}}}}}}\n"),
+        "outputSchema:for-undeclared-output": wf(GOODIN, "outputSchema:\n  other:\n    schema: {root: R, objects: {R: {id: R, properties: {t: {type: {type_id: string}}}}}}\n"),
+    }
+    for name, text in sorted(schema_cases.items()):
+        cases_meta.append({"files": {"workflow.yaml": text}, "what": "schema section: " + name, "class": "schema:" + name, "engine": {"input_yaml": "{tag: x}"}, "run": True})
     cases = []
     for i, m in enumerate(cases_meta):
         eng = dict(m.get("engine") or {})
